@@ -9,6 +9,7 @@ import (
 	"log"
 	"os"
 	"reflect"
+	"time"
 
 	"github.com/brocaar/lorawan"
 	"verifharness/internal/cases"
@@ -30,6 +31,8 @@ func marshal(p lorawan.PHYPayload) (b []byte, s string) {
 }
 
 func unmarshal(b []byte) (q lorawan.PHYPayload, s string) {
+	cases.Begin(fmt.Sprintf("PHYPayload.UnmarshalBinary:%x", b), map[string]interface{}{"bytes": fmt.Sprintf("%x", b)})
+	defer cases.End()
 	defer func() {
 		if r := recover(); r != nil {
 			s = cq.Panic
@@ -119,6 +122,7 @@ func main() {
 	s := cases.New("C01", dir, "LW.Corr.C01",
 		"spec-valid frames: 4 data MTypes x 32 FCtrl flag combinations cycled x FOpts length 0..15 (MAC commands or raw) x FPort absent/0/1..255 x FRMPayload lengths {0,1,15,16,17,31,32,33,100,241,242,random}; join-request, join-accept (CFList absent / channels / masks), rejoin 0/1/2, proprietary; plus a malformed stream (payload type not matching MType, FOpts 16..300 bytes, JoinNonce >= 2^24, FPort absent with payload, MAC command on port > 0, RXDelay > 15, nil payloads). All cases distinct by construction.")
 	s.ShardSize = 250
+	s.Watchdog(3 * time.Second)
 	n := 260
 	if thorough {
 		n = 7000
